@@ -544,3 +544,37 @@ def run(ctx: Context) -> None:  # noqa: F811
 
     ctx.rep.rule('C01.R11', 'an unfinished exchange is closed when the caller lets go: the convenience API closes the response on every exit (the close path is what closes a connection that cannot be reused)')
     support.api_releases(ctx, 'C01.R11')
+
+
+_core_run_r12 = run
+
+
+def run(ctx: Context) -> None:  # noqa: F811
+    _core_run_r12(ctx)
+    from .c07 import locks_for
+
+    rep = ctx.rep
+    rep.rule("C01.R12", "the events of one network read reach the per-stream queues in arrival order: every append to a stream's queue (and the store of a received GOAWAY) "
+                        "happens inside the read-lock region in which the batch was read - a batch carried out of the lock can be overtaken by the next reader's batch")
+    n = 0
+    for tree in ("async", "sync"):
+        N = ctx.names(tree)
+        L = locks_for(ctx, tree)
+        h2 = N.cls("http2", "AsyncHTTP2Connection")
+        lock = f"{h2.name}._read_lock"
+        for f in h2.methods.values():
+            for c in own_nodes(f.node):
+                if not (isinstance(c, ast.Call) and isinstance(c.func, ast.Attribute) and c.func.attr in ("append", "appendleft", "extend") and len(c.args) == 1):
+                    continue
+                # a queue of the stream table: `self._events[..]` directly or through a local bound from it
+                recv = c.func.value
+                srcs = [norm(recv)] + [norm(a) for a in ctx.prov.expand(recv, f, c, depth=1)] if isinstance(recv, ast.Name) else [norm(recv)]
+                if not any(s.startswith("self._events") for s in srcs):
+                    continue
+                n += 1
+                held = L.must_hold(c, f)
+                rep.ob("C01.R12", fkey(tree, f, f"enqueue-under-read-lock:{norm(c)[:40]}"), lock in held, where(f, c),
+                       f"`{ast.unparse(c)}` holds {sorted(h.split('.')[-1] for h in held)}" + ("" if lock in held else
+                       " - not the read lock: the batch this event belongs to was read under the lock but is dispatched after it was released; another task can read and enqueue the NEXT "
+                       "batch first, so a stream's body arrives reordered (or its earlier part is dropped once the stream has ended)"))
+    rep.floor("C01.R12", "appends to per-stream event queues (both trees)", n, 2)
